@@ -1104,8 +1104,9 @@ class CompositeEnvelope:
                     outcomes[k] = o
             elif s.index is None:
                 if not s.measured:
+                    # envelope partners are already part of state_list
                     out = s.measure(
-                        separate_measurement=separate_measurement,
+                        separate_measurement=True,
                         destructive=destructive,
                     )
                     for k, o in out.items():
